@@ -102,7 +102,15 @@ def expected(case, single_col=None, xarray_layout=None, deviations=None):
             for mod, test, kw in entries:
                 tb = tbl if single_col is None else {**tbl, "cols": {sid: tbl["cols"][single_col]}}
                 fl = sg.direct_call(tb, mask, sid, mod, test, kw)
-                out.append({"stream": sid, "test": f"{mod}.{test}" if fl is not None else None, "mask": mask, "flags": fl})
+                sel_ = [i for i, m in enumerate(mask) if m]
+                out.append({"stream": sid, "test": f"{mod}.{test}" if fl is not None else None, "mask": mask, "flags": fl,
+                            # the arrays the ContextResult itself carries: source restricted to the window rows, or
+                            # zero-length when the table has no such axis
+                            "data": [tb["cols"][sid][i] for i in sel_],
+                            "tinp": [sg.tnorm(tbl["t"][i]) for i in sel_] if tbl["t"] is not None else [],
+                            "zinp": [tbl["axes"]["z"][i] for i in sel_] if "z" in tbl["axes"] else [],
+                            "lat": [tbl["axes"]["lat"][i] for i in sel_] if "lat" in tbl["axes"] else [],
+                            "lon": [tbl["axes"]["lon"][i] for i in sel_] if "lon" in tbl["axes"] else []})
                 if test.startswith("vf_probe"):
                     sel = [i for i, m in enumerate(mask) if m]
                     rcp = {"tag": (kw or {}).get("tag"), "inp": [tb["cols"][sid][i] for i in sel]}
@@ -122,13 +130,14 @@ def observe(results):
     for r in results:
         res = list(r.results)
         mask = np.asarray(r.subset_indexes).astype(bool).ravel().tolist()
+        fields = {k: (sg._tolist(getattr(r, k)) or []) for k in ("data", "tinp", "zinp", "lat", "lon")}
         if res:
             cr = res[0]
             fl = [None if m else sint(d) for d, m in zip(np.asarray(np.ma.getdata(cr.results)).ravel().tolist(),
                                                         np.asarray(np.ma.getmaskarray(cr.results)).ravel().tolist())]
-            out.append({"stream": r.stream_id, "test": f"{cr.package}.{cr.test}", "mask": mask, "flags": fl})
+            out.append({"stream": r.stream_id, "test": f"{cr.package}.{cr.test}", "mask": mask, "flags": fl, **fields})
         else:
-            out.append({"stream": r.stream_id, "test": None, "mask": mask, "flags": None})
+            out.append({"stream": r.stream_id, "test": None, "mask": mask, "flags": None, **fields})
     return out
 
 
@@ -194,9 +203,10 @@ def applicable(fe, case):
         return True
     if tbl.get("index", "default") != "default":
         pass  # the index only exists for pandas; the other front ends see the same rows
-    if fe == "xarray_path" and tbl["t"] is not None and any(float(v) != int(v) for v in tbl["t"]):
-        # xarray's own decoding of float time units is not exact to the nanosecond for sub-second instants; that is
-        # the file round trip's business, not ioos_qc's
+    if fe in ("xarray_path", "netcdf_path") and tbl["t"] is not None and any(float(v) != int(v) for v in tbl["t"]):
+        # float time values in a file are not exact to the nanosecond for sub-second instants (xarray's decoding, or
+        # pandas' float-seconds conversion for the raw values NetcdfStream reads); that is the file round trip's
+        # business, not the slicing / dispatch layer's
         return False
     if fe == "qcconfig":
         return len(case["contexts"]) == 1 and len(case["contexts"][0]["streams"]) == 1 and \
@@ -348,7 +358,25 @@ def qc_case(draw, tier="quick"):
             "qc_tinp": draw(st.sampled_from(["ndarray", "list_datetime", "list_timestamp", "series", "dtindex"]))}
 
 
+@st.composite
+def xarray_case(draw, tier="quick"):
+    """Every Dataset layout on the same table and config (axes present more often than not, so that the layouts'
+    different ways of finding z / lat / lon matter)."""
+    case = draw(stream_case(tier))
+    tbl = draw(sg.table(force_axes={"z": draw(st.integers(0, 3)) != 0, "latlon": draw(st.integers(0, 3)) != 0, "time": draw(st.integers(0, 5)) != 0}))
+    sids = list(tbl["cols"])
+    ctxs = []
+    for _ in range(draw(st.sampled_from([1, 1, 2]))):
+        streams = {}
+        for sid in draw(st.lists(st.sampled_from(sids), min_size=1, max_size=2, unique=True)):
+            streams[sid] = draw(st.lists(sg.test_entry(tbl), min_size=1, max_size=3, unique_by=lambda e: (e[0], e[1])))
+        ctxs.append({"window": draw(sg.window(tbl["t"])) if tbl["t"] is not None else None, "streams": streams})
+    case.update(table=tbl, contexts=ctxs, frontends=["xarray_coord", "xarray_var", "xarray_coord_axes", "xarray_other_dim"])
+    return case
+
+
 SUBS = [Sub("streams", stream_case, check_stream, quick=1600, thorough=24000),
+        Sub("xarray_layouts", xarray_case, check_stream, quick=500, thorough=8000),
         Sub("qcconfig", qc_case, check_stream, quick=600, thorough=8000)]
 REQUIRED_CLASSES = ["streams:window_excludes_row", "streams:row_on_ending", "streams:axis_absent", "streams:one_sided_window",
                     "streams:index=reversed", "streams:no_time_column"] + [f"streams:fe={f}" for f in FRONTENDS]
